@@ -382,7 +382,11 @@ class Input(object):
             self.hash_type = self.signatures[0].hash_type
             self.keys = [Key(self.witnesses[1], network=self.network, strict=self.strict)]
 
+        given_unlocking_script = self.unlocking_script
         self.update_scripts(hash_type=self.hash_type)
+        if given_unlocking_script:
+            # The unlocking script handed to this input is what gets serialized, it is only rebuilt when signing
+            self.unlocking_script = given_unlocking_script
 
     @classmethod
     def parse(cls, raw, witness_type='segwit', index_n=0, strict=True, network=DEFAULT_NETWORK):
